@@ -311,9 +311,24 @@ func runWorker(bin string, id, tier string, j Job, shard int, out string, deadli
 		"GOMAXPROCS="+strconv.Itoa(procs), "GORACE=halt_on_error=0 exitcode=0 log_path="+out+".race")
 	var buf bytes.Buffer
 	cmd.Stdout, cmd.Stderr = &buf, &buf
-	err := cmd.Run()
-	return buf.String(), err
+	if err := cmd.Start(); err != nil {
+		return "", err
+	}
+	// harnesses stop by themselves at the internal deadline (between executions); a worker that is
+	// still there after twice the deadline plus two minutes is stuck INSIDE one execution
+	done := make(chan error, 1)
+	go func() { done <- cmd.Wait() }()
+	select {
+	case err := <-done:
+		return buf.String(), err
+	case <-time.After(time.Duration(2*deadline+120) * time.Second):
+		cmd.Process.Kill()
+		<-done
+		return buf.String() + "\nWORKER-HUNG: killed after " + fmt.Sprint(2*deadline+120) + " s", errWorkerHung
+	}
 }
+
+var errWorkerHung = fmt.Errorf("worker hung")
 
 func runCheck(id, tier, only string, keep bool) int {
 	start := time.Now()
@@ -450,6 +465,16 @@ func runCheck(id, tier, only string, keep bool) int {
 			mu.Lock()
 			defer mu.Unlock()
 			b, rerr := os.ReadFile(out)
+			if err == errWorkerHung && (j.Race || j.Instr != "") {
+				// a concurrency job whose worker is stuck inside one execution: the code under test blocks
+				// (on something the scheduler does not model, or for real in the free-running pass)
+				key := "hang:" + j.Harness + "[" + j.Params + "]"
+				rep := vrep.Report{Property: id, Harness: j.Harness, Shard: u.shard, NViolations: 1, Bounds: map[string]interface{}{}}
+				rep.Violations = append(rep.Violations, vrep.Violation{Key: key, What: "the worker got stuck inside one execution and was killed (deadlock or blocking that never ends): " + tail(log, 6),
+					Replay: vrep.ReplayFile{Property: id, Package: j.Pkg, Harness: j.Harness, Tier: tier, Params: parseParams(j.Params), Observation: tail(log, 60), Key: key, Race: j.Race, Whole: true}})
+				b, _ = json.Marshal(rep)
+				rerr = nil
+			}
 			if rerr != nil && j.Race {
 				// the free-running worker died before reporting: a Go runtime fatal error about
 				// concurrent map access, or a panic escaping from a goroutine the library started,
